@@ -54,6 +54,12 @@ def generate(rng, n, tier):
                 pts[1] = list(pts[0])
         out.append({'pts': pts, 'z': zs, 't': ts, 'ms': ms, 'preds': rng.random() < 0.2, 'parent': rng.choice([None, None, None, [2, 1], [1, 0], [0, 2]]), 'how': rng.choice(['extract', 'slice']),
                     't0': rng.choice([0, 0, 0, 4107542400 - 110, 951782400 - 105, 4107542400 + 86400 * 100])})      # ordinary instants, or around the end of February 2100 / 2000
+    for c in out:
+        if rng.random() < 0.25:
+            k = len(c['t'])
+            ties = [i for i in range(1, k) if (c['t'][i], c['ms'][i]) == (c['t'][i - 1], c['ms'][i - 1])] + [i for i in range(2, k) if (c['t'][i], c['ms'][i]) == (c['t'][i - 2], c['ms'][i - 2])]
+            idx = set(rng.sample(ties, min(len(ties), 2)) + [rng.randrange(k)])
+            c['alt'] = {str(i): rng.choice(['sec', 'hour']) for i in idx}
     # a few long tracks (more than 256 fixes: beyond the small-integer cache of CPython, and long enough for an index arithmetic slip to show);
     # they go through the oracle only (the model tie carries the full distance matrix)
     for k in ([258, 300] if tier == 'quick' else [257, 258, 259, 300, 400, 512]):
@@ -72,6 +78,15 @@ def mktrack(case):
         # timestamps are calendar dates (as read from a file): built from their fields; the elapsed times of the property are those of the calendar
         d = datetime.datetime(1970, 1, 1) + datetime.timedelta(seconds=t + case.get('t0', 0))
         ot = ObsTime(d.year, d.month, d.day, d.hour, d.minute, d.second, ms)
+        alt = (case.get('alt') or {}).get(str(len(obs)))
+        if alt == 'hour' and t + case.get('t0', 0) < 86400 + 120:
+            alt = 'sec'                            # (the day before would be in 1969)
+        if alt == 'sec':                           # the same instant in the notation of a leap second / an un-normalised log: 12:00:00 written 11:59:60 (the fields are never normalised; elapsed times are what counts)
+            d2 = d - datetime.timedelta(seconds=60)
+            ot = ObsTime(d2.year, d2.month, d2.day, d2.hour, d2.minute, d2.second + 60, ms)
+        elif alt == 'hour':                        # ISO midnight: 00:00:00 of the 4th written 24:00:00 of the 3rd
+            d2 = d - datetime.timedelta(days=1)
+            ot = ObsTime(d2.year, d2.month, d2.day, d2.hour + 24, d2.minute, d2.second, ms)
         obs.append(Obs(ENUCoords(x, y, z), ot))
     return Track(obs)
 
